@@ -370,3 +370,51 @@ func classReach(fn *ssa.Function, ipExpr string, cl addrClass, pred func(ssa.Ins
 	}
 	return some, all
 }
+
+// pathInfo: one acyclic path with its branch decisions and the blocks it runs through.
+type pathInfo struct {
+	Conds  []string
+	Blocks []*ssa.BasicBlock
+}
+
+// pathsTo enumerates the acyclic paths from the nearest single-entry dominator of b down to b
+// (the same region as pathDNF), keeping the blocks of each path so that a rule can ask what
+// was executed on it.
+func pathsTo(b *ssa.BasicBlock, limit int) (out []pathInfo, complete bool) {
+	start := b.Idom()
+	for start != nil && len(start.Preds) > 1 {
+		start = start.Idom()
+	}
+	if start == nil {
+		return nil, false
+	}
+	complete = true
+	var walk func(cur *ssa.BasicBlock, conds []string, blocks []*ssa.BasicBlock, seen map[*ssa.BasicBlock]bool)
+	walk = func(cur *ssa.BasicBlock, conds []string, blocks []*ssa.BasicBlock, seen map[*ssa.BasicBlock]bool) {
+		if len(out) >= limit {
+			complete = false
+			return
+		}
+		if cur == b {
+			out = append(out, pathInfo{Conds: append([]string(nil), conds...), Blocks: append(append([]*ssa.BasicBlock(nil), blocks...), cur)})
+			return
+		}
+		if seen[cur] {
+			return
+		}
+		seen[cur] = true
+		defer delete(seen, cur)
+		blocks = append(blocks, cur)
+		if iff, ok := cur.Instrs[len(cur.Instrs)-1].(*ssa.If); ok {
+			txt := norm(iff.Cond)
+			walk(cur.Succs[0], append(conds[:len(conds):len(conds)], txt), blocks, seen)
+			walk(cur.Succs[1], append(conds[:len(conds):len(conds)], "!"+txt), blocks, seen)
+			return
+		}
+		for _, s := range cur.Succs {
+			walk(s, conds, blocks, seen)
+		}
+	}
+	walk(start, nil, nil, map[*ssa.BasicBlock]bool{})
+	return out, complete
+}
